@@ -29,6 +29,12 @@ def build_impl(sc0, sid):
         if sc["two"]:
             idecl.append("\tExtra()")
         idecl += ["}", ""]
+    elif sc["ikind"] == "embedOnly":
+        idecl = ["// I1 declares the method.", "type I1 interface {", "\tM(%s) %s" % (param(sc["pI"], sc["vI"], ipkg), render(sc["rI"], ipkg)), "}", "",
+                 "// I is the contract: it only embeds I1.", "type I interface {", "\tI1"]
+        if sc["two"]:
+            idecl.append("\tExtra()")
+        idecl += ["}", ""]
     elif sc["ikind"] == "nonIface":
         idecl = ["// I is not an interface.", "type I struct{}", ""]
     d = ["package d", "", "type N struct{}", "", "type AN = N", "", "// V is never implemented by the scenario's types.", "type V interface {", "\tNope()", "}", "",
@@ -95,9 +101,13 @@ def build_impl(sc0, sid):
         line_of_T = len(u)
         u.append("")
     elif sc["via"] == "direct":
-        u.append("type T struct{}")
+        # T is the first spec of a group; the undocumented TG after it claims nothing
+        k0 = max(i for i, l in enumerate(u) if l == "// T is the annotated type.")
+        doc = u[k0:]
+        del u[k0:]
+        u += ["type ("] + ["\t" + l for l in doc] + ["\tT struct{}"]
         line_of_T = len(u)
-        u.append("")
+        u += ["\tTG struct{}", ")", ""]
     else:
         u.append("type T struct{ %sE }" % ("*" if sc["via"] == "embedPtr" else ""))
         line_of_T = len(u)
